@@ -13,10 +13,10 @@ import (
 
 func init() {
 	register(&Prop{
-		ID: "C07",
-		Decided: "(1) in processAggregationResults the clauses run in relational order on every path: DISTINCT, HAVING, strip of hidden HAVING columns, ORDER BY, LIMIT, delivery; (2) LIMIT keeps a prefix results[:Limit] and only when len>Limit; (3) every hidden-column family the parser creates (__having_N__, __winagg_N__) has a strip site with a matching prefix in the stream package; (3b) a HAVING aggregate call is bound only to the alias of that very call text, to the call text itself, or to a freshly registered hidden aggregate; (4) compareOrderValues returns -1/0/+1 exactly for a<b / a=b / a>b on numbers (NaN unordered => 0), times and strings; Sorter.less uses c<0 for ASC and c>0 for DESC and continues to the next key on ties.",
+		ID:         "C07",
+		Decided:    "(1) in processAggregationResults the clauses run in relational order on every path: DISTINCT, HAVING, strip of hidden HAVING columns, ORDER BY, LIMIT, delivery; (2) LIMIT keeps a prefix results[:Limit] and only when len>Limit; (3) every hidden-column family the parser creates (__having_N__, __winagg_N__) has a strip site with a matching prefix in the stream package; (3b) a HAVING aggregate call is bound only to the alias of that very call text, to the call text itself, or to a freshly registered hidden aggregate; (4) compareOrderValues returns -1/0/+1 exactly for a<b / a=b / a>b on numbers (NaN unordered => 0), times and strings; Sorter.less uses c<0 for ASC and c>0 for DESC and continues to the next key on ties.",
 		NotDecided: "the arithmetic of post-aggregation expressions and the classification of SELECT items, HAVING truth values, DISTINCT's JSON-based equality, aggregate values.",
-		Run: runC07,
+		Run:        runC07,
 	})
 }
 
@@ -160,6 +160,7 @@ func runC07(a *A) {
 	})
 	a.Rule("ordtab/comparator", 4, func() { a.ruleOrderComparator() })
 	a.Rule("whomay/having-binding", 3, func() { a.ruleHavingBinding() })
+	a.Rule("flow/delivered-batch-fresh", 7, func() { a.ruleDeliveredBatchFresh() })
 }
 
 func (a *A) ruleOrderComparator() {
